@@ -629,6 +629,61 @@ func (h *harness) checkOracles(st manager.VerifState) {
 			}
 		}
 	}
+	// --- C11 (under scheduled job completions): the tag graph stays well-formed and the
+	//     referenced-by bookkeeping mirrors the definitions
+	{
+		refs := map[string][]string{}
+		exists := map[string]bool{}
+		for _, t := range st.Tags {
+			exists[t.Name] = true
+			seen := map[string]bool{}
+			for _, r := range append(append([]string(nil), t.MainTags...), t.SubQueryTags...) {
+				if !seen[r] {
+					seen[r] = true
+					refs[t.Name] = append(refs[t.Name], r)
+				}
+			}
+		}
+		inverse := map[string][]string{}
+		for _, t := range st.Tags {
+			for _, r := range refs[t.Name] {
+				if !exists[r] {
+					h.complain("C11", "tag %s references the missing tag %s", t.Name, r)
+				}
+				inverse[r] = append(inverse[r], t.Name)
+			}
+		}
+		for _, t := range st.Tags {
+			want := inverse[t.Name]
+			sort.Strings(want)
+			if strings.Join(want, ",") != strings.Join(t.ReferencedBy, ",") {
+				h.complain("C11", "tag %s is recorded as referenced by %v, the definitions say %v", t.Name, t.ReferencedBy, want)
+			}
+		}
+		// cycle check by elimination
+		done := map[string]bool{}
+		for progress := true; progress; {
+			progress = false
+			for _, t := range st.Tags {
+				if done[t.Name] {
+					continue
+				}
+				ok := true
+				for _, r := range refs[t.Name] {
+					if exists[r] && !done[r] {
+						ok = false
+					}
+				}
+				if ok {
+					done[t.Name] = true
+					progress = true
+				}
+			}
+		}
+		if len(done) != len(st.Tags) {
+			h.complain("C11", "the tag reference graph contains a cycle")
+		}
+	}
 	// --- C16: cached converter output belongs to the current data
 	for _, cn := range st.Converters {
 		for _, id := range st.Cached[cn] {
@@ -1215,6 +1270,7 @@ type genTag struct {
 // wrong guesses just produce error returns, which are legal inputs too.
 type genWorld struct {
 	r       *lib.RNG
+	lastDef map[string]string // last definition given to a tag name (for delete + re-add of the same)
 	tags    map[string]*genTag
 	streams int
 	flows   map[int]bool
@@ -1291,7 +1347,7 @@ var genCrash = false
 
 func gen(seed uint64, n int, w io.Writer) {
 	r := lib.NewRNG(seed)
-	g := &genWorld{r: r, tags: map[string]*genTag{}, flows: map[int]bool{}}
+	g := &genWorld{r: r, tags: map[string]*genTag{}, flows: map[int]bool{}, lastDef: map[string]string{}}
 	npcap := 0
 	clock := 0
 	pending := []string{}
@@ -1406,6 +1462,10 @@ func gen(seed uint64, n int, w io.Writer) {
 				}
 			} else {
 				def, gt := g.genDef(t, r.Chance(1, 12))
+				if old, ok := g.lastDef[t]; ok && r.Chance(1, 2) {
+					def = old // re-create a deleted tag with the identical definition
+				}
+				g.lastDef[t] = def
 				fmt.Fprintf(w, "addtag %s red %s\n", t, def)
 				if g.tags[t] == nil {
 					g.tags[t] = gt
@@ -1432,6 +1492,11 @@ func gen(seed uint64, n int, w io.Writer) {
 				t := lib.Pick(r, ex)
 				fmt.Fprintf(w, "deltag %s\n", t)
 				delete(g.tags, t) // may fail when referenced; the guess only steers the mix
+				if d, ok := g.lastDef[t]; ok && !strings.HasPrefix(t, "mark/") && r.Chance(1, 2) {
+					// delete + re-add with the same definition (a job of the old incarnation may still be parked)
+					fmt.Fprintf(w, "addtag %s red %s\n", t, d)
+					g.tags[t] = &genTag{data: true, refs: true}
+				}
 			}
 		case x < 32:
 			fmt.Fprintf(w, "updcolor %s %s\n", lib.Pick(r, tagNames), lib.Pick(r, []string{"blue", "green"}))
